@@ -44,7 +44,11 @@ def main(argv=None) -> int:
         body = json.load(open(a.replay))
         for u in units:
             if u.name == body["unit"] and u.replay is not None:
-                desc = u.replay(body["input"])
+                if u.replay == "concrete":
+                    from symlite.core import concrete_replay
+                    desc = concrete_replay(u.make(frozenset()), body["input"], u.declared_exceptions)
+                else:
+                    desc = u.replay(body["input"])
                 if desc:
                     print(f"[{prop}] replay reproduces: {desc}")
                     print(f"VIOLATION property={prop} replay={a.replay}")
